@@ -19,7 +19,7 @@ CHECKS = {
                        "nondeterminism sources (iteration over RandomState-hashed containers - hasher read from the resolved "
                        "generic arguments -, clocks, threads, environment, addresses, random hashers) are enumerated; each is "
                        "discharged by a mechanical loop-body order-insensitivity check or by a tabled reason with a "
-                       "who-may-call constraint; anything else is reported with file:line.",
+                       "who-may-call constraint; anything else is reported with file:line. Calls through fn pointers are resolved by address-taken analysis (the local fn items / closures coerced to that pointer type); a pointer type whose target set is not closed is reported.",
         "trusted": ["rustc nightly front end (MIR, trait resolution)", "dependencies are deterministic",
                     "tables/nondet_allow.json rows (each with a reason)"],
         "technique": "static effect analysis on MIR: enumeration of nondeterminism-source call sites with resolved hasher types, loop-body order-insensitivity check, who-may-call table",
@@ -38,7 +38,7 @@ CHECKS = {
                        "panic!/unreachable!/unimplemented!, Index on Vec/str/HashMap, Vec::remove/insert/drain, i64::pow/abs, chrono's "
                        "panicking constructors and operators, sort on a non-total Ord) and narrowing/sign-changing `as` casts. Each site is "
                        "an obligation: discharged mechanically, by a tabled reason whose guard is re-proved by edge dominance on every run, "
-                       "listed as known finding, or reported with file:line.",
+                       "listed as known finding, or reported with file:line. The depth bound the recursive evaluators lean on is re-checked: every cycle of the expression parser passes the depth guard, and a loop that nests the tree one level per pass neither skips the guard nor writes the depth counter.",
         "trusted": ["rustc nightly MIR + trait resolution", "tables/may_panic_api.json is complete for the APIs this crate calls",
                     "tables/discharged.json rows without a `requires` clause are assumptions (listed in the evidence)"],
         "technique": "static site inventory on MIR over the call-graph closure of the entry points; edge-dominance guard re-proving; tabled discharges",
@@ -65,7 +65,7 @@ CHECKS = {
                        "(#[automatically_derived] or manual). Types without a float must be all-derived; a float-bearing type must build "
                        "eq/partial_cmp/cmp/hash on one canonical total key, which is checked on the MIR of the four methods (callees, absence of "
                        "IEEE comparison BinaryOps, shared key function, NaN/-0.0 canonicalisation). Plus: no ad-hoc comparators on value "
-                       "types, and the WHERE comparison converts INT to REAL before ordering.",
+                       "types, and the WHERE comparison converts INT to REAL before ordering. The Compare arm of evaluate constructs no operand value except the INT -> REAL widening (a cast of the Int payload): WHERE compares with the same equality / order that the key containers use.",
         "trusted": ["rustc nightly MIR + is_automatically_derived", "std/chrono leaf types are lawful", "derive output is lawful over lawful fields"],
         "technique": "static impl-provenance and sibling-agreement analysis of the comparison/hash trait impls on type-checked MIR",
         "level_text": "Decides the structural necessary-and-sufficient condition for the order laws given lawful leaves: all five impls of every "
@@ -98,7 +98,7 @@ CHECKS = {
     },
     "C07": {
         "modules": ["rules_c07"],
-        "explanation": "CFG and who-may-read rules on the MIR of both executors and ExecutionEngine::{execute, update_limit}: from the reached_limit edge no input-consuming call is reachable (all loops are left); reached_limit is tested on every path from executing a line back to the loop header; the counter is fed from Vec::len of the emitted rows (no filtered count); execute_select is reached only through `limit is None` or `num_output_rows < limit` and the rows of one line are truncated before being counted; the batch aggregate table is cut in ExecutionEngine::execute, and no other function of the execution engines reads the statement's limit.",
+        "explanation": "CFG and who-may-read rules on the MIR of both executors and ExecutionEngine::{execute, update_limit}: from the reached_limit edge no input-consuming call is reachable (all loops are left); reached_limit is tested on every path from executing a line back to the loop header; the counter is fed from Vec::len of the emitted rows (no filtered count); execute_select is reached only through `limit is None` or `num_output_rows < limit` and the rows of one line are truncated before being counted; the batch aggregate table is cut in ExecutionEngine::execute, and no other function of the execution engines reads the statement's limit. The optional LIMIT is never collapsed into a plain number by a default other than usize::MAX (no sentinel that a legitimate LIMIT n could equal).",
         "trusted": ["rustc nightly MIR + trait resolution", "dependencies behave as documented"],
         "technique": 'static reachability, edge-dominance, callee-shape and who-may-read rules on MIR',
         "level_text": "Decides the mechanism clauses (loop exit, pre-test, truncation, counting, single place of application). The two-run relation 'first n of the unlimited result' is not decided.",
@@ -146,7 +146,7 @@ CHECKS = {
     },
     "C20": {
         "modules": ["rules_c20"],
-        "explanation": 'Sibling-agreement and shape rules on the MIR of the tokenizer, parser and converter: every name-lookup site (HashMap::get / HashSet::contains on the static keyword/function/aggregate tables, ValueType::from_str, string equality between a literal and a non-literal) has an operand whose backward provenance passes through to_lowercase; the clause dispatch of parse_select (WHERE/INNER/OUTER/GROUP/HAVING/LIMIT arms read from the Keyword discriminant switch) sits in one loop and every arm returns to it; the statement types carry no TokenLocation; characters inside string literals are pushed unmodified and no case folding precedes the literal branch.',
+        "explanation": 'Sibling-agreement and shape rules on the MIR of the tokenizer, parser and converter: every name-lookup site (HashMap::get / HashSet::contains on the static keyword/function/aggregate tables, ValueType::from_str, string equality between a literal and a non-literal) has an operand whose backward provenance passes through to_lowercase; the clause dispatch of parse_select (WHERE/INNER/OUTER/GROUP/HAVING/LIMIT arms read from the Keyword discriminant switch) sits in one loop and every arm returns to it; the statement types carry no TokenLocation; characters inside string literals are pushed unmodified and no case folding precedes the literal branch. Token-list rule: tokenize only appends tokens, rewrites the last token only into IS NOT / NOT IN / :: / => / a two-character operator, and removes a token only behind `last token is the operator --` (comment start).',
         "trusted": ["rustc nightly MIR + trait resolution", "dependencies behave as documented"],
         "technique": 'static provenance (def-use) analysis of lookup operands, arm-table / loop-membership rule, type-containment rule on MIR',
         "level_text": 'Decides the structural necessary conditions: no case-sensitive name lookup, order-free clause dispatch, no layout data in statements, verbatim literals. The relation between pairs of texts is not compared.',
@@ -162,7 +162,7 @@ CHECKS = {
     },
     "C02": {
         "modules": ["rules_c02"],
-        "explanation": "Arm-table and provenance rules on MIR: ValueType::convert_from_json maps every declared type to the serde_json accessor of the same kind (callee set per arm, no numeric cast, no wildcard, element-wise recursion for arrays); in the JSON arm of ColumnParsing::extract DEFAULT is applied only on the path-absent edge of get_value and the CONVERT branch goes as_str -> ValueType::parse while the other goes convert_from_json; JsonAccess::get_value follows Field steps with Value::get(name) and Array steps with as_array + get(index) with the step's own unmodified name/index, recursing on the inner step, and uses no other serde_json accessor; the per-line JSON parse happens once, outside any loop, under any_json_columns, and is consumed by unwrap_or(Null).",
+        "explanation": "Arm-table and provenance rules on MIR: ValueType::convert_from_json maps every declared type to the serde_json accessor of the same kind (callee set per arm, no numeric cast, no wildcard, element-wise recursion for arrays); in the JSON arm of ColumnParsing::extract DEFAULT is applied only on the path-absent edge of get_value and the CONVERT branch goes as_str -> ValueType::parse while the other goes convert_from_json; JsonAccess::get_value follows Field steps with Value::get(name) and Array steps with as_array + get(index) with the step's own unmodified name/index, recursing on the inner step, and uses no other serde_json accessor; the per-line JSON parse happens once, outside any loop, under any_json_columns, and is consumed by unwrap_or(Null). Every non-NULL value convert_from_json produces lies under exactly one declared type and wraps a JSON value whose kind was established by the matching accessor or a match on the serde_json variant; the per-line parsing input is only shared-borrowed in the extraction subgraph (no &mut ParsingInput / &mut serde_json::Value parameter, no &mut borrow in the column loop), so one column cannot change what the next one reads.",
         "trusted": ["rustc nightly MIR + trait resolution", "dependencies behave as documented"],
         "technique": 'static arm-table extraction, def-use provenance and who-may-call rules on MIR',
         "level_text": "Decides the structural clauses (which accessor per type, no coercion, how the path is walked, when DEFAULT applies, totality of the parse). serde_json's own number model and parser are trusted.",
@@ -170,7 +170,7 @@ CHECKS = {
     },
     "C03": {
         "modules": ["rules_c03"],
-        "explanation": 'Rules on the MIR of ExpressionExecutionEngine::evaluate and SelectExecutionEngine::execute: site inventory rooted at evaluate (no unchecked arithmetic, narrowing cast or panicking call on evaluated data; guards re-proved); exhaustiveness of the top-level match (no wildcard); CompareOperator -> comparison primitive arm table with operand order checked by provenance (left, right), accepting the spelling through one Ordering; NULL-test dominance of the comparison dispatch and of the IN element comparison; ArithmeticOperator -> checked_add/sub/mul/div (INT closure, no raw integer operator) and + - * / (REAL closure); AND / OR short-circuit shape; `*` expanded from ColumnProvider::keys, exactly one push per projection on every path, one Row per call.',
+        "explanation": 'Rules on the MIR of ExpressionExecutionEngine::evaluate and SelectExecutionEngine::execute: site inventory rooted at evaluate (no unchecked arithmetic, narrowing cast or panicking call on evaluated data; guards re-proved); exhaustiveness of the top-level match (no wildcard); CompareOperator -> comparison primitive arm table with operand order checked by provenance (left, right), accepting the spelling through one Ordering; NULL-test dominance of the comparison dispatch and of the IN element comparison; ArithmeticOperator -> checked_add/sub/mul/div (INT closure, no raw integer operator) and + - * / (REAL closure); AND / OR short-circuit shape; `*` expanded from ColumnProvider::keys, exactly one push per projection on every path, one Row per call. A cast parses the operand`s own text: the string handed to ValueType::parse has, by backward provenance, no string-transforming call on the way.',
         "trusted": ["rustc nightly MIR + trait resolution", "dependencies behave as documented"],
         "technique": 'static site inventory, arm-table extraction through closures, operand provenance and guard-dominance rules on MIR',
         "level_text": 'Decides the operator <-> primitive tables, NULL guards, error discipline of arithmetic and the projection shape on every path. Whether each function computes its documented value is not decided.',
@@ -178,7 +178,7 @@ CHECKS = {
     },
     "C05": {
         "modules": ["rules_c05"],
-        "explanation": 'Rules on the MIR of join.rs and the converter: error discipline (results of File::open, get_table, index_for and the per-line execute reach the caller through Try::branch/FromResidual and are not swallowed by ok()/unwrap_or); the join index insert and lookup are dominated by a NOT NULL test of the key; in execute_join every partner row yields exactly one execute call and one merge on every path back to the loop header (path counting), the loop is left early only by error returns, partners are traversed as a plain slice of a Vec<Row> bucket; the OUTER row is vec![NULL; number of joined columns] on the no-partner arm under is_outer && allow_outer; transform_join maps both ON orientations consistently (field provenance of the two JoinClause constructions).',
+        "explanation": 'Rules on the MIR of join.rs and the converter: error discipline (results of File::open, get_table, index_for and the per-line execute reach the caller through Try::branch/FromResidual and are not swallowed by ok()/unwrap_or); the join index insert and lookup are dominated by a NOT NULL test of the key; in execute_join every partner row yields exactly one execute call and one merge on every path back to the loop header (path counting), the loop is left early only by error returns, partners are traversed as a plain slice of a Vec<Row> bucket; the OUTER row is vec![NULL; number of joined columns] on the no-partner arm under is_outer && allow_outer; transform_join maps both ON orientations consistently (field provenance of the two JoinClause constructions). The joined table is loaded in execute_joined_table on every path with a join clause, by no other caller, and the per-line entry cannot reach the load (call graph), so a missing joined file / column is an error whatever the input contains.',
         "trusted": ["rustc nightly MIR + trait resolution", "dependencies behave as documented"],
         "technique": 'static error-discipline (swallowed-result) analysis, path-fact guard analysis, path counting, key-provenance (lossy conversion) and field-type rules on MIR with local helpers inlined',
         "level_text": 'Decides the structural clauses of the join mechanism (errors reported, NULL keys excluded, every pair executed and merged once in file order, outer row shape, side mapping). The resulting set of pairs as values is not computed.',
@@ -186,7 +186,7 @@ CHECKS = {
     },
     "C04": {
         "modules": ["rules_c04"],
-        "explanation": "Rules on the MIR of aggregate_execution.rs: path counting shows that every per-column loop over the group table pushes exactly one value per group on every path (rectangular result table); the group table's field types are BTreeMap<GroupKey,..> and NULL is the first variant of Value's derived Ord; every group access in update_aggregate is addressed by (group_key.clone(), aggregate_index) unmodified (provenance); the HAVING aggregate index aggregates.len()+k is computed identically by its writer and its reader; MIN/MAX compare through Value's order for every type (no numeric-only fold); GroupAggregator::is_null only tests the running values for NULL; COUNT adds the constant 1.",
+        "explanation": "Rules on the MIR of aggregate_execution.rs: path counting shows that every per-column loop over the group table pushes exactly one value per group on every path (rectangular result table); the group table's field types are BTreeMap<GroupKey,..> and NULL is the first variant of Value's derived Ord; every group access in update_aggregate is addressed by (group_key.clone(), aggregate_index) unmodified (provenance); the HAVING aggregate index aggregates.len()+k is computed identically by its writer and its reader; MIN/MAX compare through Value's order for every type (no numeric-only fold); GroupAggregator::is_null only tests the running values for NULL; COUNT adds the constant 1. GroupAggregator::update_value constructs Some(value) only behind a test of the accumulated state (or hands on the Option of an accessor), so an aggregator without input publishes nothing.",
         "trusted": ["rustc nightly MIR + trait resolution", "dependencies behave as documented"],
         "technique": 'static path counting, type/impl facts, argument provenance, sibling agreement and arm-table rules on MIR',
         "level_text": 'Decides the structural clauses (rectangularity, ordering container, group isolation, index agreement, type coverage of MIN/MAX). Numerical values of aggregate cells are not computed. One engine limit pinned by the existing tests (groups without any aggregate entry are not shown) is a recorded known finding.',
